@@ -36,8 +36,8 @@ func main() {
 			return
 		}
 
-		nA := c.Scale(12, 400)
-		steps := c.Scale(5, 7)
+		nA := c.Scale(10, 400)
+		steps := c.Scale(4, 7)
 		all := e2e.EngRunHistories(c.Rng, base+"/a", nA, 8, func(i int) e2e.EngOpts {
 			return e2e.EngOpts{MaxPkgs: 2, MaxTargets: 6, Steps: steps, CleanRef: true, Subsets: i%3 == 1, Failures: i%4 == 3,
 				PWipe: 8, PRevert: 15, PNoop: 5, DirHeavy: i%2 == 0}
@@ -69,7 +69,7 @@ func main() {
 		}
 
 		// Part B: the lead's first harness, full generator (output_dirs included), oracle only
-		nB := c.Scale(3, 100)
+		nB := c.Scale(2, 100)
 		allB := e2e.RunHistories(c.Rng, base+"/b", nB, 6, e2e.HistOpts{Gen: e2e.GenOpts{MaxPkgs: 3, MaxTargets: 7, DirOutputs: true}, Steps: steps, CleanRef: true, RmPlzOut: true, Revert: true})
 		for i, hist := range allB {
 			for _, st := range hist {
